@@ -2,6 +2,7 @@ import RedisVerif.Driver.Codec
 import RedisVerif.Driver.Crc32
 import RedisVerif.Driver.C10
 import RedisVerif.Model.Codec
+import RedisVerif.Driver.Bincode
 
 /-
   C14 sub-driver (stateful: base segment image, base checkpoint image).
@@ -20,6 +21,8 @@ import RedisVerif.Model.Codec
     g <variant> <len>            → the round-trip law of the gossip codec ("roundtrip ok")
     W <ts> <hex>                 → encoded WAL entry for the payload (from_delta + encode)
     wd <hex>                     → WalEntry::decode
+    BD <hex> | BS <hex> | U8 <hex>   → the concrete bincode model (`Driver/Bincode.lean`): a delta payload /
+                                 a checkpoint payload decoded and printed field by field; UTF-8 validity
 -/
 namespace RedisVerif.Driver.C14
 open RedisVerif RedisVerif.Driver RedisVerif.Wal RedisVerif.Codec
@@ -57,6 +60,9 @@ def showChk (base : Option Bytes) : Res Bytes → String
   | .ok p => if some p == base then "ok same" else "ok diff"
 
 def step (s : St) (line : String) : St × String :=
+  match Bin.step? (tokens line) with
+  | some o => (s, o)
+  | none =>
   match tokens line with
   | ["V", v, k] => ({ s with fmt := if v == "1" then .v1 else .v2, strict := k != "0" },
       s!"format {if v == "1" then 1 else 2} strict {if k != "0" then 1 else 0}")
